@@ -1,7 +1,546 @@
-//! C14 — not built yet (stub).
+//! C14 — Journal-backed zones survive a stop at any point.
+//!
+//! A C12 history runs on a `SqliteZoneHandler` with an on-disk journal (file under the case's temp
+//! dir, tmpfs when available), starting with the initial `persist_to_journal` dump. Every INSERT
+//! autocommits, so the stop points are the journal row counts: for every k in 0..=rows the journal
+//! file is copied, rows with rowid > k are deleted through `rusqlite`, and a fresh handler is
+//! recovered with `recover_with_journal` (what `try_from_config` does when the file exists).
+//!
+//! Oracle. B_0, B_1, ... are the states of the *running* server at whole-message boundaries
+//! (content and serial; C12 separately decides that they are the RFC 2136 states), r_i the row
+//! count when message i had been answered. For stop point k >= r_0 let lo = max{i : r_i <= k} and
+//! hi = min{i : r_i >= k}:
+//!   * recovery returns Ok,
+//!   * the recovered zone is one of B_lo ..= B_hi (never a mixture; at a boundary exactly B_lo),
+//!     which includes "serial not lower than any serial answered before the stop",
+//!   * the rest of the history, applied to the recovered handler (journal re-attached), yields the
+//!     same answers and the same boundary states as the run without restart,
+//!   * (thorough) stopping again inside that continuation satisfies the same conditions.
+//! Stop points inside the initial dump (k < r_0): the complete initial zone or a refused recovery.
+//!
+//! Deviations are classed by *where* the stop fell and *what* came back; three positional classes
+//! are known root causes (no transaction around an update's rows; SOA row written after the
+//! in-memory apply; initial dump not atomic) and have their own signatures. Everything else
+//! (failed recovery, wrong state at a boundary, diverging continuation) is a violation.
 
-use crate::core::Check;
+use std::sync::{Arc, Mutex};
+
+use futures_executor::block_on;
+use futures_util::FutureExt;
+use hickory_proto::rr::{RData, RecordType, RrKey};
+use hickory_server::store::sqlite::Journal;
+use hickory_server::zone_handler::ZoneHandler;
+use hickory_server::zone_handler::AxfrPolicy;
+use proptest::prelude::*;
+use serde::{Deserialize, Serialize};
+
+use crate::checks::c12::known_sigs;
+use crate::core::{prop, CaseResult, Check, Fail, Rec, Tier};
+use crate::gen::update_driver::*;
+use crate::gen::updates::{self, History};
+use crate::refm::canon;
+use crate::refm::update_ref::*;
+
+#[derive(Clone, Debug, Serialize, Deserialize)]
+pub struct Case {
+    pub hist: History,
+    pub salt: u16,
+    /// second-level stop points are swept for first-level k with k % 3 == phase (thorough)
+    pub phase: u8,
+}
+
+/// C12 findings that wreck the zone or the process are kept out of C14 histories: "delete all
+/// RRsets" aimed at the apex is redirected to a host name
+fn sanitize(mut h: History) -> History {
+    let o = updates::origin();
+    for m in &mut h.msgs {
+        for r in &mut m.updates {
+            if r.class == C_ANY && r.rtype == T_ANY && canon::name_eq(&r.name, &o) {
+                r.name = updates::name(1);
+            }
+        }
+    }
+    h
+}
+
+fn case_strategy(_t: Tier) -> impl Strategy<Value = Case> {
+    (updates::history(6, false), any::<u16>(), 0u8..3).prop_map(|(hist, salt, phase)| Case {
+        hist: sanitize(hist),
+        salt,
+        phase,
+    })
+}
+
+fn tmp_dir() -> std::io::Result<tempfile::TempDir> {
+    if std::path::Path::new("/dev/shm").is_dir() {
+        if let Ok(d) = tempfile::Builder::new().prefix("vcheck-c14-").tempdir_in("/dev/shm") {
+            return Ok(d);
+        }
+    }
+    tempfile::Builder::new().prefix("vcheck-c14-").tempdir()
+}
+
+fn rows_of(h: &Handler) -> Result<i64, Fail> {
+    let g = block_on(h.journal());
+    let j = g.as_ref().ok_or_else(|| Fail::new("harness", "no journal attached"))?;
+    let conn = j.conn();
+    let (count, max): (i64, Option<i64>) = conn
+        .query_row("SELECT COUNT(*), MAX(_rowid_) FROM records", [], |r| Ok((r.get(0)?, r.get(1)?)))
+        .map_err(|e| Fail::new("harness", format!("row count: {e}")))?;
+    if max.unwrap_or(0) != count {
+        return Err(Fail::new("harness", format!("journal rowids not contiguous: count {count}, max {max:?}")));
+    }
+    Ok(count)
+}
+
+/// the run of a (suffix of a) history on a live handler
+struct Run {
+    /// index of the first message applied in this run
+    first: usize,
+    /// rows[j] = journal rows when message first+j-1 had been answered; rows[0] = at the start
+    rows: Vec<i64>,
+    states: Vec<Snapshot>,
+    /// answers[j] belongs to message first+j (states[j+1] follows it)
+    answers: Vec<Applied>,
+    /// message first+j wrote a post-update SOA row
+    soa_row: Vec<bool>,
+    /// journal rows present when the commit observer was installed
+    seen_from: i64,
+    /// seen[i] = SOA serial held in memory (what a query would be answered with) at the moment
+    /// journal row seen_from + 1 + i was committed; None = not observable at that instant
+    seen: Vec<Option<u32>>,
+}
+
+impl Run {
+    fn seen_at(&self, row: i64) -> Option<u32> {
+        if row <= self.seen_from {
+            return None;
+        }
+        self.seen.get((row - self.seen_from - 1) as usize).copied().flatten()
+    }
+}
+
+type SeenLog = Arc<Mutex<Vec<Option<u32>>>>;
+
+/// the serial a query arriving now would see; never blocks (the zone lock may be held for writing)
+fn peek_serial(h: &Handler) -> Option<u32> {
+    let g = h.records().now_or_never()?;
+    let key = RrKey::new(h.origin().clone(), RecordType::SOA);
+    let set = g.get(&key)?;
+    let r = set.records_without_rrsigs().next()?;
+    match &r.data {
+        RData::SOA(s) => Some(s.serial),
+        _ => None,
+    }
+}
+
+/// SQLite commit hook on the journal connection: one observation per committed row
+fn install_observer(h: &Arc<Handler>) -> Result<SeenLog, Fail> {
+    let log: SeenLog = Arc::new(Mutex::new(Vec::new()));
+    let weak = Arc::downgrade(h);
+    let log2 = log.clone();
+    let g = block_on(h.journal());
+    let j = g.as_ref().ok_or_else(|| Fail::new("harness", "no journal attached"))?;
+    j.conn()
+        .commit_hook(Some(move || {
+            let seen = weak.upgrade().and_then(|h| peek_serial(&h));
+            if let Ok(mut l) = log2.lock() {
+                l.push(seen);
+            }
+            false
+        }))
+        .map_err(|e| Fail::new("harness", format!("commit hook: {e}")))?;
+    Ok(log)
+}
+
+fn apply_msgs(h: &Handler, c: &Case, first: usize, log: &SeenLog, seen_from: i64) -> Result<Result<Run, String>, Fail> {
+    let key = test_key();
+    let origin = updates::origin();
+    let now0 = 1_700_000_000u64 + c.salt as u64;
+    let mut run = Run {
+        first,
+        rows: vec![rows_of(h)?],
+        states: vec![snapshot(h)],
+        answers: vec![],
+        soa_row: vec![],
+        seen_from,
+        seen: vec![],
+    };
+    for (i, msg) in c.hist.msgs.iter().enumerate().skip(first) {
+        let serial_before = run.states.last().unwrap().zone.serial();
+        let a = apply_signed(h, c.salt.wrapping_add(i as u16), &origin, msg, &key, now0 + i as u64);
+        if let Applied::Panic(m, l) = &a {
+            return Ok(Err(format!("{m} at {l}")));
+        }
+        run.answers.push(a);
+        run.rows.push(rows_of(h)?);
+        let s = snapshot(h);
+        run.soa_row.push(s.zone.serial() != serial_before && run.rows[run.rows.len() - 1] > run.rows[run.rows.len() - 2]);
+        run.states.push(s);
+    }
+    run.seen = log.lock().map(|l| l.clone()).unwrap_or_default();
+    let expect = (*run.rows.last().unwrap() - seen_from) as usize;
+    if run.seen.len() != expect {
+        return Err(Fail::new("harness", format!("commit observer saw {} commits for {expect} journal rows", run.seen.len())));
+    }
+    Ok(Ok(run))
+}
+
+fn cut_copy(src: &std::path::Path, dst: &std::path::Path, k: i64) -> Result<(), Fail> {
+    std::fs::copy(src, dst).map_err(|e| Fail::new("harness", format!("copy journal: {e}")))?;
+    let conn = rusqlite::Connection::open(dst).map_err(|e| Fail::new("harness", format!("open copy: {e}")))?;
+    conn.execute("DELETE FROM records WHERE _rowid_ > ?1", [k])
+        .map_err(|e| Fail::new("harness", format!("cut copy: {e}")))?;
+    conn.close().map_err(|(_, e)| Fail::new("harness", format!("close copy: {e}")))?;
+    Ok(())
+}
+
+enum Recovered {
+    Ok(Arc<Handler>, SeenLog),
+    Refused(String),
+}
+
+/// what `try_from_config` does when the journal file exists
+fn recover(path: &std::path::Path, origin: &[Vec<u8>]) -> Result<Recovered, Fail> {
+    let journal = Journal::from_file(path).map_err(|e| Fail::new("recovery-cannot-open-journal", e.to_string()))?;
+    let mut h = empty_handler(origin, AxfrPolicy::Deny);
+    let r = crate::core::catch(|| block_on(h.recover_with_journal(&journal)));
+    match r {
+        Err(p) => Err(crate::core::panic_fail(&p)),
+        Ok(Err(e)) => Ok(Recovered::Refused(e.to_string())),
+        Ok(Ok(())) => {
+            h.set_tsig_signers(vec![hickory_signer(&test_key(), 300)]);
+            block_on(h.set_journal(journal));
+            let h = Arc::new(h);
+            let log = install_observer(&h)?;
+            Ok(Recovered::Ok(h, log))
+        }
+    }
+}
+
+fn zdiff(a: &Zone, b: &Zone) -> String {
+    let mut s = String::new();
+    for (k, t) in &a.rrs {
+        if b.rrs.get(k) != Some(t) {
+            s.push_str(&format!("-[{} {} {} {}] ", canon::show(&k.0), t, type_name(k.1), show_rdata(k.1, &k.2)));
+        }
+    }
+    for (k, t) in &b.rrs {
+        if a.rrs.get(k) != Some(t) {
+            s.push_str(&format!("+[{} {} {} {}] ", canon::show(&k.0), t, type_name(k.1), show_rdata(k.1, &k.2)));
+        }
+    }
+    s
+}
+
+struct Ctx<'a> {
+    c: &'a Case,
+    dir: &'a std::path::Path,
+    origin: Labels,
+    deferred: Vec<(&'static str, String)>,
+    crash_points: u64,
+    interior_points: u64,
+    recoveries: u64,
+    continuations: u64,
+    second_level: u64,
+    strict: bool,
+}
+
+impl Ctx<'_> {
+    fn known(&mut self, sig: &'static str, msg: String) -> CaseResult {
+        if self.strict {
+            return Err(Fail::new(sig, msg));
+        }
+        self.deferred.push((sig, msg));
+        Ok(())
+    }
+}
+
+/// sweep every stop point of `run` whose journal is at `jpath`; `k_from` = first stop point to
+/// examine (0 at the first level; the rows already present at the second level)
+fn sweep(cx: &mut Ctx<'_>, jpath: &std::path::Path, run: &Run, k_from: i64, level: u8, deeper: bool) -> CaseResult {
+    let total = *run.rows.last().unwrap();
+    let n = run.rows.len() - 1;
+    let cpath = cx.dir.join(format!("cut-l{level}.sqlite"));
+    for k in k_from..=total {
+        cx.crash_points += 1;
+        cut_copy(jpath, &cpath, k)?;
+        let rec = recover(&cpath, &cx.origin)?;
+        cx.recoveries += 1;
+        let at = |what: &str| format!("level {level}, stop after row {k} of {total} ({what}); rows at boundaries {:?}", run.rows);
+        let lo = (0..=n).rev().find(|i| run.rows[*i] <= k).unwrap_or(0);
+        let hi = (0..=n).find(|i| run.rows[*i] >= k).unwrap_or(n);
+        // messages that wrote no rows share a row count: then hi < lo and all those states qualify
+        let (lo, hi) = (lo.min(hi), lo.max(hi));
+        let interior = run.rows[lo] < k && k < run.rows[hi];
+        if interior {
+            cx.interior_points += 1;
+        }
+        let (h, log) = match rec {
+            Recovered::Ok(h, log) => (h, log),
+            Recovered::Refused(e) => {
+                return Err(Fail::new(
+                    "recovery-refused-own-journal",
+                    format!("{}: recover_with_journal failed: {e}", at(if interior { "inside a message" } else { "message boundary" })),
+                ));
+            }
+        };
+        let s = snapshot(&h);
+        // full snapshots: content, serial, and the empty RRset objects C12 reports (they steer later updates)
+        let matching: Option<usize> = (lo..=hi).rev().find(|i| run.states[*i] == s);
+        let Some(bi) = matching else {
+            if interior {
+                let msg_idx = run.first + hi - 1;
+                let m = &cx.c.hist.msgs[msg_idx.min(cx.c.hist.msgs.len() - 1)];
+                let before_soa_row = run.soa_row[hi - 1] && k == run.rows[hi] - 1;
+                let prev = &run.states[hi - 1].zone;
+                let next = &run.states[hi].zone;
+                if before_soa_row && s.zone.masked() == next.masked() && s.zone.serial() != next.serial() {
+                    cx.known(
+                        "stop-before-soa-row-loses-serial-bump",
+                        format!(
+                            "{}: message #{msg_idx} {} recovered with its content applied but without the serial bump (recovered {:?}, previous boundary {:?}, the running server already had {:?})",
+                            at("all update rows written, post-update SOA row not yet"),
+                            m.show(),
+                            s.zone.serial(),
+                            prev.serial(),
+                            next.serial()
+                        ),
+                    )?;
+                    continue;
+                }
+                // only a strict prefix of the message's update rows is in the journal
+                if !before_soa_row {
+                    cx.known(
+                        "stop-inside-update-rows-replays-partial-message",
+                        format!(
+                            "{}: message #{msg_idx} {} recovered half-applied: vs previous boundary {} / vs next boundary {}",
+                            at("inside the rows of one UPDATE message"),
+                            m.show(),
+                            zdiff(prev, &s.zone),
+                            zdiff(next, &s.zone)
+                        ),
+                    )?;
+                    continue;
+                }
+            }
+            return Err(Fail::new(
+                "recovered-zone-not-a-boundary-state",
+                format!(
+                    "{}: recovered zone differs from boundary state {lo}: {}",
+                    at(if interior { "inside a message" } else { "message boundary" }),
+                    zdiff(&run.states[lo].zone, &s.zone)
+                ),
+            ));
+        };
+        // recovered serial never below a serial answered before the stop: states[lo] was answered
+        if let (Some(rs), Some(ls)) = (s.zone.serial(), run.states[lo].zone.serial()) {
+            if rs != ls && !serial_gt(rs, ls) {
+                return Err(Fail::new("recovered-serial-regressed", format!("{}: serial {rs} after recovery, {ls} answered before", at("serial"))));
+            }
+        }
+        // ... nor below a serial a query could have been answered with before the stop: the serial
+        // held in memory when each row up to the one that was never written got committed
+        if let Some(rs) = s.zone.serial() {
+            for row in (run.rows[lo] + 1)..=(k + 1).min(total) {
+                let Some(vis) = run.seen_at(row) else { continue };
+                if rs != vis && !serial_gt(rs, vis) {
+                    let msg = format!(
+                        "{}: recovered serial {rs}, but serial {vis} was already visible in memory when row {row} was committed",
+                        at("serial visible before the stop")
+                    );
+                    let hi_msg = hi.max(1) - 1;
+                    if interior && run.soa_row.get(hi_msg).copied().unwrap_or(false) && k == run.rows[hi] - 1 {
+                        cx.known("stop-before-soa-row-loses-serial-bump", msg)?;
+                        break;
+                    }
+                    return Err(Fail::new("recovered-serial-below-one-visible-before-the-stop", msg));
+                }
+            }
+        }
+        // the rest of the history behaves as if no restart had happened
+        let next_msg = run.first + bi;
+        if next_msg < cx.c.hist.msgs.len() {
+            cx.continuations += 1;
+            let cont = match apply_msgs(&h, cx.c, next_msg, &log, k)? {
+                Ok(r) => r,
+                Err(p) => return Err(Fail::new("continuation-panicked", format!("{}: {p}", at("continuation")))),
+            };
+            for j in 0..cont.answers.len() {
+                let (want_a, want_s) = (&run.answers[bi + j], &run.states[bi + j + 1]);
+                if cont.answers[j].accepted() != want_a.accepted() || &cont.states[j + 1] != want_s {
+                    return Err(Fail::new(
+                        "continuation-after-recovery-diverges",
+                        format!(
+                            "{}: after recovery to boundary {bi}, message #{} {} answered {} (without restart: {}), zone diff {}",
+                            at("continuation"),
+                            next_msg + j,
+                            cx.c.hist.msgs[next_msg + j].show(),
+                            cont.answers[j].show(),
+                            want_a.show(),
+                            zdiff(&want_s.zone, &cont.states[j + 1].zone)
+                        ),
+                    ));
+                }
+            }
+            if deeper && level == 1 && (k % 3) as u8 == cx.c.phase && *cont.rows.last().unwrap() > cont.rows[0] {
+                cx.second_level += 1;
+                drop(h);
+                let from = cont.rows[0] + 1;
+                let jp2 = cx.dir.join("cut-l1-continued.sqlite");
+                std::fs::copy(&cpath, &jp2).map_err(|e| Fail::new("harness", format!("copy: {e}")))?;
+                sweep(cx, &jp2, &cont, from, 2, false)?;
+            }
+        }
+    }
+    Ok(())
+}
+
+#[derive(Clone, Copy, PartialEq, Eq)]
+enum What {
+    /// stop points inside the initial dump only (k < r_0)
+    InitialDump,
+    /// every stop point from the end of the initial dump on
+    Updates,
+    /// the same, plus a second stop inside the continuation
+    UpdatesTwice,
+}
+
+fn sweep_dump(cx: &mut Ctx<'_>, jpath: &std::path::Path, run: &Run) -> CaseResult {
+    let r0 = run.rows[0];
+    let cpath = cx.dir.join("cut-dump.sqlite");
+    for k in 0..r0 {
+        cx.crash_points += 1;
+        cx.interior_points += 1;
+        cut_copy(jpath, &cpath, k)?;
+        let rec = recover(&cpath, &cx.origin)?;
+        cx.recoveries += 1;
+        if let Recovered::Ok(h, _) = rec {
+            let s = snapshot(&h);
+            if s.zone != run.states[0].zone {
+                cx.known(
+                    "initial-dump-stop-recovers-partial-zone",
+                    format!(
+                        "stop after row {k} of the {r0}-row initial dump: recovery succeeded with a zone that is not the initial zone: {}",
+                        zdiff(&run.states[0].zone, &s.zone)
+                    ),
+                )?;
+            }
+        }
+    }
+    Ok(())
+}
+
+fn body(c: &Case, rec: &mut Rec, what: What) -> CaseResult {
+    let deeper = what == What::UpdatesTwice;
+    let dir = tmp_dir().map_err(|e| Fail::new("harness", format!("tempdir: {e}")))?;
+    let jpath = dir.path().join("journal.sqlite");
+    let z0 = c.hist.init.build();
+    let mut h = build_handler(&z0, AxfrPolicy::Deny).map_err(|e| Fail::new("harness-init", e))?;
+    h.set_tsig_signers(vec![hickory_signer(&test_key(), 300)]);
+    let journal = Journal::from_file(&jpath).map_err(|e| Fail::new("harness-init", e.to_string()))?;
+    block_on(h.set_journal(journal));
+    let h = Arc::new(h);
+    let log = install_observer(&h)?;
+    block_on(h.persist_to_journal()).map_err(|e| Fail::new("initial-dump-failed", e.to_string()))?;
+    let run = match apply_msgs(&h, c, 0, &log, 0)? {
+        Ok(r) => r,
+        Err(p) => {
+            // a panic of the running server is C12's subject
+            rec.discard(format!("live-run-panicked:{}", p.split(" at ").next().unwrap_or("").chars().take(40).collect::<String>()));
+            return Ok(());
+        }
+    };
+    if run.states.iter().any(|s| invariant_violation(&s.zone).map(|v| v.0) == Some("zone-soa-count") && s.zone.serial().is_none()) {
+        rec.discard("live-zone-lost-its-soa");
+        return Ok(());
+    }
+    drop(h);
+    let mut cx = Ctx {
+        c,
+        dir: dir.path(),
+        origin: z0.origin.clone(),
+        deferred: vec![],
+        crash_points: 0,
+        interior_points: 0,
+        recoveries: 0,
+        continuations: 0,
+        second_level: 0,
+        strict: rec.strict,
+    };
+    rec.count("commit_observations", run.seen.iter().filter(|s| s.is_some()).count() as u64);
+    rec.count("commit_instants_not_observable", run.seen.iter().filter(|s| s.is_none()).count() as u64);
+    let res = if what == What::InitialDump {
+        let mut dump_only = Run {
+            first: 0,
+            rows: vec![run.rows[0]],
+            states: vec![run.states[0].clone()],
+            answers: vec![],
+            soa_row: vec![],
+            seen_from: 0,
+            seen: vec![],
+        };
+        // stop points 0 .. r_0 - 1 (r_0 itself is the first boundary, swept by the other subs)
+        dump_only.rows[0] = run.rows[0];
+        sweep_dump(&mut cx, &jpath, &dump_only)
+    } else {
+        sweep(&mut cx, &jpath, &run, run.rows[0], 1, deeper)
+    };
+    rec.count("stop_points", cx.crash_points);
+    rec.count("stop_points_inside_a_message_or_the_dump", cx.interior_points);
+    rec.count("recoveries", cx.recoveries);
+    rec.count("continuations", cx.continuations);
+    rec.count("second_level_sweeps", cx.second_level);
+    res?;
+    let multi_row = (1..run.rows.len()).any(|j| run.rows[j] - run.rows[j - 1] >= 2);
+    rec.class(format!("msgs={}", c.hist.msgs.len()));
+    rec.class(format!("journal-rows={}", match *run.rows.last().unwrap() {
+        0..=5 => "<=5",
+        6..=10 => "6-10",
+        11..=20 => "11-20",
+        _ => ">20",
+    }));
+    rec.class(format!("accepted-msgs={}", run.answers.iter().filter(|a| a.accepted()).count()));
+    rec.class(if multi_row { "has-multi-row-message" } else { "no-multi-row-message" });
+    for (sig, _) in &cx.deferred {
+        rec.class(format!("finding:{sig}"));
+    }
+    if multi_row || (what == What::InitialDump && run.rows[0] >= 3) {
+        rec.nontrivial();
+        if rec.wants_note() {
+            rec.note(format!("{} rows at boundaries {:?}", updates::show_history(&c.hist), run.rows));
+        }
+    }
+    let known = known_sigs("C14");
+    if let Some((sig, msg)) = cx.deferred.iter().find(|d| !known.iter().any(|k| k == d.0)).or(cx.deferred.first()) {
+        let all: std::collections::BTreeSet<&str> = cx.deferred.iter().map(|d| d.0).collect();
+        return Err(Fail::new(*sig, format!("{msg} [sweep continued; findings in this history: {all:?}] history: {}", updates::show_history(&c.hist))));
+    }
+    Ok(())
+}
 
 pub fn check() -> Option<Check> {
-    None
+    let dump = prop(
+        "initial_dump_stop_points",
+        1_000,
+        20_000,
+        |t| case_strategy(t).prop_map(|mut c| {
+            c.hist.msgs.clear();
+            c
+        }),
+        |c: &Case, rec: &mut Rec| body(c, rec, What::InitialDump),
+    );
+    let sweep1 = prop("journal_stop_points", 3_000, 100_000, case_strategy, |c: &Case, rec: &mut Rec| body(c, rec, What::Updates));
+    let sweep2 = prop("journal_stop_twice", 600, 20_000, case_strategy, |c: &Case, rec: &mut Rec| body(c, rec, What::UpdatesTwice));
+    Some(Check {
+        id: "C14",
+        level: "fault_enumeration",
+        rule: "C12 histories (1..6 signed UPDATE messages through ZoneHandler::update; apex delete-all redirected, serial 2^32-1 avoided) on a SqliteZoneHandler with an on-disk journal incl. the initial persist_to_journal dump; per history EVERY journal row count k in 0..=rows is a stop point (copy the file, DELETE rowid > k, recover_with_journal into a fresh handler, re-attach the journal, continue the remaining history); journal_stop_twice additionally sweeps every stop point of the continuation for a third of the first-level points. Counters stop_points / recoveries / continuations give the number of (history, k) pairs. Non-trivial = distinct history containing at least one message that wrote >= 2 journal rows (so that some k lies strictly inside a message or between its update rows and its SOA row)",
+        assumptions: vec![
+            "a stop tears at journal-row granularity; atomicity and durability of one SQLite commit are SQLite's and are trusted",
+            "boundary states are those of the running server (C12 decides separately that they are the RFC 2136 states)",
+            "concurrent queries racing an update are not explored; 'serial answered before the stop' is the serial of the last boundary at or before k",
+        ],
+        subs: vec![dump, sweep1, sweep2],
+    })
 }
